@@ -200,6 +200,9 @@ def concat_axis1(parts):
 
 def setitem(o, idx, v):
     """functional update o[idx] = v (numpy in-place store); idx: int or tuple of ints (leading axes)"""
+    cast = getattr(o, "store_cast", None)
+    if cast is not None:
+        o2 = SArr(o.shape, o.get); r = setitem(o2, idx, cast(v)); r.store_cast = cast; return r
     if not isinstance(idx, tuple): idx = (idx,)
     idx = tuple(norm_index(i, n) for i, n in zip(idx, o.shape))
     if any(isinstance(i, SArr) and i.ndim > 0 for i in idx): raise Unsupported("setitem with array index")
@@ -314,9 +317,23 @@ def from_value(x):
     if isinstance(x, SArr): return x
     if isinstance(x, (list, tuple)): return arr_from_list([from_value(v) if isinstance(v, (list, tuple)) else v for v in x])
     return x
+CAST_UNKNOWN = z3.Function("cast_to_dtype_of_another_array", z3.RealSort(), z3.RealSort())
+def _store_cast_for(dtype):
+    """buffers created with the dtype OF ANOTHER ARRAY (x.dtype - unknown to the engine: integer or float) convert whatever is stored into them: uninterpreted cast,
+    so that no proof can rely on a stored float surviving; explicit float dtypes and the default store reals as they are"""
+    if dtype == "dtype":
+        def cast(v):
+            if isinstance(v, SArr): return SArr(v.shape, lambda idx: cast(v.get(idx)))
+            t = toz3(v); t = z3.ToReal(t) if z3.is_int(t) else t
+            return CAST_UNKNOWN(t) if z3.is_real(t) else v
+        return cast
+    return None
 def zeros(shape, dtype=None, fill=0):
     if not isinstance(shape, (tuple, list)): shape = (shape,)
-    return SArr(tuple(shape), lambda idx: fill, tag=("zeros",) if concrete_int(fill) == 0 else None)
+    r = SArr(tuple(shape), lambda idx: fill, tag=("zeros",) if concrete_int(fill) == 0 else None)
+    c = _store_cast_for(dtype)
+    if c is not None: r.store_cast = c
+    return r
 NONNEG_ORACLE = [None]          # set per interpreter: expr -> True iff the current path condition implies expr >= 0 (quick solver call)
 def arange(lo, hi=None, step=None, dtype=None):
     if hi is None: lo, hi = 0, lo
